@@ -50,6 +50,29 @@ Theorem C12_segment_plane_closest_points : forall l pl a b,
 Proof. exact closest_segment_plane_correct. Qed.
 Print Assumptions C12_segment_plane_closest_points.
 
+(* Polygon2D.distance_to_point (generated): for a query the inside test rejects, the value is the least distance to ALL edges - no point of
+   any edge is closer, and some edge point is exactly that far (the root only needs to be monotone); inside it is zero *)
+From Coq Require Import List.
+From LBG Require Import G3_poly G7_contain C12_polygon.
+Theorem C12_polygon_distance_is_the_least_over_all_edges : forall qsqrt,
+  (forall a b, 0 <= a -> a <= b -> qsqrt a <= qsqrt b) ->
+  forall (pg : Polygon2R) (p : V2),
+  Polygon2D_is_point_inside_bound_rect_2 pg p = false -> Polygon2D_segments pg <> nil ->
+  (forall s, In s (Polygon2D_segments pg) -> ~ dot2 (lr2v s) (lr2v s) == 0) ->
+  (forall s t, In s (Polygon2D_segments pg) -> in_seg t -> Polygon2D_distance_to_point qsqrt pg p <= qsqrt (sqd2 p (on2 s t))) /\
+  (exists s u, In s (Polygon2D_segments pg) /\ in_seg u /\ Polygon2D_distance_to_point qsqrt pg p == qsqrt (sqd2 p (on2 s u))).
+Proof. exact distance_to_point_outside_spec. Qed.
+Print Assumptions C12_polygon_distance_is_the_least_over_all_edges.
+
+Theorem C12_polygon_distance_inside_is_zero : forall qsqrt (pg : Polygon2R) (p : V2),
+  Polygon2D_is_point_inside_bound_rect_2 pg p = true -> Polygon2D_distance_to_point qsqrt pg p = 0.
+Proof. exact distance_to_point_inside. Qed.
+Print Assumptions C12_polygon_distance_inside_is_zero.
+
+Example C12_polygon_distance_concrete :
+  Polygon2D_distance_to_point qsqrt_exec (mkPolygon2 (mkV2 0 0 :: mkV2 10 0 :: mkV2 6 1 :: mkV2 0 4 :: nil)) (mkV2 5 (-3)) == 3.
+Proof. vm_compute. reflexivity. Qed.
+
 Example C12_nonvacuous :
   let l := mkLR2 (mkV2 0 0) (mkV2 4 0) in
   ~ dot2 (lr2v l) (lr2v l) == 0 /\ in_seg (1#4) /\
